@@ -214,7 +214,8 @@ func Library(dir string) (*Report, error) {
 		}
 		curFunc := ""
 		inOnce := 0
-		var bracketed [][2]token.Pos // statements that already run detached from the token, and select communications
+		var bracketed [][2]token.Pos     // statements that already run detached from the token, and select communications
+		blockStmt := map[ast.Stmt]bool{} // the statements of block lists (each has a yield in front of it)
 		var visitBlock func(list []ast.Stmt, tag string)
 		var walk func(n ast.Node)
 		visitBlock = func(list []ast.Stmt, tag string) {
@@ -226,6 +227,7 @@ func Library(dir string) (*Report, error) {
 				if inOnce > 0 && t == "" {
 					t = "in-once-func"
 				}
+				blockStmt[s] = true
 				id := next
 				next++
 				pos := fset.Position(s.Pos())
@@ -358,22 +360,14 @@ func Library(dir string) (*Report, error) {
 				walk(x)
 			}
 		}
-		// A receive that is part of a larger statement (return <-done, if v := <-c; ..., f(<-c)) would block
-		// while its task holds the token: it becomes zzsimrt.Await(c), which hands the token back for the wait.
-		// (Await is generic: the file then needs the go1.18 language, which a build line grants per file; a
-		// file that has build constraints of its own is left alone and the construct reported.)
-		constrained := false
-		for _, cg := range f.Comments {
-			if cg.Pos() < f.Package {
-				for _, cm := range cg.List {
-					if strings.HasPrefix(cm.Text, "//go:build") || strings.HasPrefix(cm.Text, "// +build") {
-						constrained = true
-					}
-				}
-			}
-		}
-		awaits := 0
+		// A receive that is part of a larger statement (return <-done, if v, ok := <-c; ok, switch <-c, f(g(<-c)) in
+		// a return) would wait while its task holds the token. It is hoisted in front of the block-level statement
+		// that contains it - "zzsimrt.BeginBlocking(); zzvN := <-c; zzsimrt.EndBlocking();" - and replaced by zzvN,
+		// provided the statement evaluates it exactly once and unconditionally (not in a loop condition, a case
+		// list, an else-if or the right side of && / ||: those are reported and left alone). Operands the
+		// statement evaluates before the receive are then evaluated after it - the one liberty taken.
 		var stack []ast.Node
+		hoisted := 0
 		ast.Inspect(f, func(c ast.Node) bool {
 			if c == nil {
 				stack = stack[:len(stack)-1]
@@ -392,31 +386,65 @@ func Library(dir string) (*Report, error) {
 					return true
 				}
 			}
-			if constrained {
-				rep.Unmodelled = append(rep.Unmodelled, fmt.Sprintf("%s:%d receive inside a larger statement (file has build constraints: not rewritten)", name, fset.Position(u.Pos()).Line))
-				return true
+			si := -1
+			for i := len(stack) - 2; i >= 0; i-- {
+				if st, ok := stack[i].(ast.Stmt); ok && blockStmt[st] {
+					si = i
+					break
+				}
+				if _, ok := stack[i].(*ast.FuncLit); ok {
+					break
+				}
 			}
-			awaits++
-			fn := "zzsimrt.Await("
-			if len(stack) >= 2 {
-				switch par := stack[len(stack)-2].(type) {
-				case *ast.AssignStmt:
-					if len(par.Lhs) == 2 && len(par.Rhs) == 1 && par.Rhs[0] == ast.Expr(u) {
-						fn = "zzsimrt.AwaitOK("
+			safe := si >= 0 && !hasChanOp(u.X)
+			for i := si; safe && i < len(stack)-1; i++ {
+				child := stack[i+1]
+				switch par := stack[i].(type) {
+				case *ast.BinaryExpr:
+					if (par.Op == token.LAND || par.Op == token.LOR) && child == ast.Node(par.Y) {
+						safe = false
 					}
-				case *ast.ValueSpec:
-					if len(par.Names) == 2 && len(par.Values) == 1 && par.Values[0] == ast.Expr(u) {
-						fn = "zzsimrt.AwaitOK("
+				case *ast.ForStmt:
+					if (par.Cond != nil && child == ast.Node(par.Cond)) || (par.Post != nil && child == ast.Node(par.Post)) {
+						safe = false
+					}
+				case *ast.IfStmt:
+					if par.Else != nil && child == ast.Node(par.Else) {
+						safe = false
+					}
+				case *ast.CaseClause:
+					for _, e := range par.List {
+						if child == ast.Node(e) {
+							safe = false
+						}
 					}
 				}
 			}
-			edits = append(edits, edit{off: off(u.OpPos), text: fn, del: 2}, edit{off: off(u.X.End()), text: ")"})
+			if !safe {
+				rep.Unmodelled = append(rep.Unmodelled, fmt.Sprintf("%s:%d receive evaluated conditionally inside a larger statement (it may wait while its task holds the token)", name, fset.Position(u.Pos()).Line))
+				return true
+			}
+			hoisted++
+			v := "zzv" + strconv.Itoa(off(u.Pos()))
+			x := string(src[off(u.X.Pos()):off(u.X.End())])
+			lhs, repl := v, v
+			switch par := stack[len(stack)-2].(type) {
+			case *ast.AssignStmt:
+				if len(par.Lhs) == 2 && len(par.Rhs) == 1 && par.Rhs[0] == ast.Expr(u) {
+					lhs, repl = v+", "+v+"ok", v+", "+v+"ok"
+				}
+			case *ast.ValueSpec:
+				if len(par.Names) == 2 && len(par.Values) == 1 && par.Values[0] == ast.Expr(u) {
+					lhs, repl = v+", "+v+"ok", v+", "+v+"ok"
+				}
+			}
+			st := stack[si].(ast.Stmt)
+			edits = append(edits,
+				edit{off: off(st.Pos()), text: "zzsimrt.BeginBlocking(); " + lhs + " := <-" + x + "; zzsimrt.EndBlocking(); "},
+				edit{off: off(u.Pos()), text: repl, del: off(u.End()) - off(u.Pos())})
 			rep.ChanBrackets++
 			return true
 		})
-		if awaits > 0 {
-			edits = append(edits, edit{off: 0, text: "//go:build go1.18\n\n//line " + filepath.Base(name) + ":1\n"})
-		}
 		if len(edits) == 0 && !contains(rep.SyncFiles, name) {
 			continue
 		}
@@ -473,7 +501,6 @@ func writeRuntime(dir, rtPath string) error {
 		"tmpl/zzsimrt.go.txt":        "zzsimrt/zzsimrt.go",
 		"tmpl/sched.go.txt":          "zzsimrt/sched.go",
 		"tmpl/keys.go.txt":           "zzsimrt/keys.go",
-		"tmpl/await.go.txt":          "zzsimrt/await.go",
 		"tmpl/simsync.go.txt":        "zzsimrt/simsync/simsync.go",
 		"tmpl/simsync121.go.txt":     "zzsimrt/simsync/simsync121.go",
 		"tmpl/simsync_race.go.txt":   "zzsimrt/simsync/race.go",
